@@ -105,8 +105,9 @@ fn valid_ast() -> BoxedStrategy<Case07> {
 
 /// many groups followed by two-digit references
 fn valid_backref10() -> BoxedStrategy<Case07> {
-    (10u32..=14, 1u32..=14).prop_map(|(n, r)| {
-        let r = r.min(n);
+    // up to 45 groups: references above 9, above 31/32 and above 40 all occur, always to a closed group
+    (10u32..=45, 1u32..=45, any::<bool>()).prop_map(|(n, r, high)| {
+        let r = if high { n - (r % 3).min(n - 1) } else { r.min(n) };
         let mut p = String::new();
         for i in 0..n {
             p.push_str(&format!("({})", (b'a' + (i % 20) as u8) as char));
